@@ -410,6 +410,12 @@ def run_unit_inner(unit, tier, seed):
             cres = fut_can.result()
     r["auto_stubs"] = auto_pieces
     viol, undec = classify(unit, vxlog, gen_lines, res)
+    if any(u["reason"].startswith("resource limit") for u in undec):
+        # a failing obligation often exhausts the default budget before Z3 reports it: one retry with 10x the budget
+        subprocess.run(["rm", "-rf", logdir])
+        res = run_verus(out, ("--rlimit", "100"), logdir)
+        r["cmds"].append(res["cmd"])
+        viol, undec = classify(unit, vxlog, gen_lines, res)
     fb = breakdown(res)
     counts = air_counts(logdir)
     subprocess.run(["rm", "-rf", logdir])
